@@ -258,8 +258,13 @@ def match_finding(finding, failure):
     sig = finding.get("signature")
     if not sig:
         return False
+    case = failure.get("case")
+    if sig == "diff-variable-adjacent":
+        # phil --diff on raw user files: an unresolved $(NAME) that must keep its parentheses (identifier characters follow,
+        # or NAME is dotted) is written back as $NAME...
+        return isinstance(case, dict) and "users" in case and any(cli_streams.needs_parens(u) for u in case["users"])
     try:
-        return sig in c07.signatures_of_case(failure["case"])
+        return sig in c07.signatures_of_case(case)
     except Exception:
         return False
 
@@ -283,15 +288,26 @@ class SaveDiff(vlib.Stream):
         tails = ["/model.pdb", "2/map.ccp4", "_old/a.cif", "/sub/b.cif", "", "/", ".bak/x", "x/y", "/a b/c", "-1/z"]
         for _ in range(60 if tier == "quick" else 600):
             vals = [(self.BASE + rng.choice(tails)) if rng.random() < 0.8 else rng.choice(["/other/c.pdb", "rel/d", "None"]) for _ in range(5)]
-            yield {"model": vals[0], "map": vals[1], "extra": vals[2:2 + rng.randint(0, 3)], "n": rng.randint(1, 3), "rp": rng.random() < 0.85}
+            yield {"model": vals[0], "map": vals[1], "extra": vals[2:2 + rng.randint(0, 3)], "n": rng.randint(1, 3), "rp": rng.random() < 0.85,
+                   "quotes": rng.randrange(3)}
 
     def impl(self, case):
         import os, shutil, tempfile
         from freephil import interface
         fp = self.fp
 
+        qs = case.get("quotes", 0)
+
         def q(v):
-            return v if v == "None" else '"%s"' % v
+            # the user's quote style: double, single, or none where the value has no blank
+            if v == "None":
+                return v
+            k = (qs + len(v)) % 3
+            if k == 1:
+                return "'%s'" % v
+            if k == 2 and " " not in v and v:
+                return v
+            return '"%s"' % v
         user = "inp.model = %s\ninp.map = %s\n%sinp.n = %d\n" % (
             q(case["model"]), q(case["map"]), "".join("inp.extra = %s\n" % q(v) for v in case["extra"]), case["n"])
 
@@ -312,6 +328,14 @@ class SaveDiff(vlib.Stream):
                     got = values(master.fetch(source=fp.parse(file_name=f)))
                 except RuntimeError as e:
                     return ["unreadable", str(e)[:200], text[:400]]
+                # saving does not disturb the index: it still holds W
+                try:
+                    after = values(idx.working_phil)
+                    after_diff = values(master.fetch(source=idx.get_diff()))
+                except RuntimeError as e:
+                    return ["disturbed", "after save_diff the index fails: %s" % str(e)[:200], want, text[:400]]
+                if after != want or after_diff != want:
+                    return ["disturbed", [after, after_diff], want, text[:400]]
             return ["ok"] if got == want else ["differs", got, want, text[:400]]
         finally:
             shutil.rmtree(d, ignore_errors=True)
@@ -327,12 +351,15 @@ class SaveDiff(vlib.Stream):
             return "the diff written by save_diff cannot be merged back (%s); file: %r" % (o[1], o[2])
         if o[0] == "differs":
             return "merging the saved diff back gives %r, the working parameters are %r; file: %r" % (o[1], o[2], o[3])
+        if o[0] == "disturbed":
+            return "after save_diff the index holds / its difference restores %r, the working parameters were %r; file: %r" % (o[1], o[2], o[3])
         return None
 
     def tag(self, case, o):
         return o[0]
 
 
+import cli_streams
 from cli_streams import CliDiff  # noqa: E402  (the observation point "phil --diff master user")
 
 SPEC = {
